@@ -124,12 +124,13 @@ Section Run.
 
   Record K (m : m02) (s : state) : Prop := {
     k_view : vagree univ (obs_view (n_prev m)) (state_view s);
+    k_extra : o_extra (n_prev m) = [] \/ o_extra (n_prev m) = extras c univ s;
     k_core : core_inv (tk s);
     k_ghost : G (n_ghost m) s
   }.
 
   Lemma K_init start : K (m02_init start univ) (init start).
-  Proof. constructor; cbn; [apply vagree_init|apply core_inv_tok0|apply G_init]. Qed.
+  Proof. constructor; cbn; [apply vagree_init|left; reflexivity|apply core_inv_tok0|apply G_init]. Qed.
 
   Lemma all_true {A} (f : A -> bool) l : (forall x, f x = true) -> forallb f l = true.
   Proof. intros H. apply forallb_forall. intros x _. apply H. Qed.
@@ -139,7 +140,7 @@ Section Run.
     let '(s', out, evs) := step c s cl in
     exists m', c02_item univ m (cl, out, evs, observe c univ s') = (true, m') /\ K m' s'.
   Proof.
-    intros [K1 K2 K3] Wc.
+    intros [K1 KX K2 K3] Wc.
     assert (Wf : forall x, In x (call_addrs2 cl) -> In x univ).
     { intros a Ha. rewrite forallb_forall in Wc. apply mem_In. apply Wc. exact Ha. }
     unfold step. destruct (exec c s cl) as [[[s1 v] evs]|] eqn:E.
@@ -148,6 +149,7 @@ Section Run.
       destruct (exec_balances _ _ _ _ _ _ W K2 E) as (_ & _ & C1).
       eexists. split.
       + unfold c02_item. f_equal.
+        rewrite (advance_keeps_extras_model c univ s cl s1 v evs (n_prev m) E KX), andb_true_r.
         rewrite (c02_checks_ext univ _ _ _ _ K1 (vagree_observe c univ s1) _ _ _ Wf).
         unfold c02_checks.
         rewrite (all_true _ _ D), (all_true _ _ Ch).
@@ -159,6 +161,7 @@ Section Run.
       + constructor; cbn [n_prev n_ghost tk w_hist]; auto. exact (vagree_observe c univ s1).
     - eexists. split.
       + unfold c02_item. f_equal.
+        rewrite advance_keeps_extras_fail, andb_true_r.
         rewrite (c02_checks_ext univ _ _ _ _ K1 (vagree_observe c univ s) _ _ _ Wf).
         unfold c02_checks. cbn [ghost_step].
         rewrite (all_true (chk_debit (state_view s) (state_view s) cl Fail)).
